@@ -157,6 +157,7 @@ class LayerRule(
         self._rule = None
         self._architecture: LayeredArchitecture | None = None
         self._rule_matcher_class = rule_matcher_class
+        self._subject_specified = False
 
     def based_on(self, architecture: LayeredArchitecture) -> LayerBase:
         if self._architecture is not None:
@@ -177,6 +178,7 @@ class LayerRule(
                 layer_mapping=self._architecture.layer_mapping,  # type: ignore
             )
         ).modules_that()
+        self._subject_specified = False
 
         return self
 
@@ -186,18 +188,29 @@ class LayerRule(
                 "Please start with 'layers_that' to ensure the rule is properly set up."
             )
 
-        if not self._rule.rule_subjects and isinstance(layers, list):
+        # a layer without modules can be named as rule subject, so whether a subject has already been given
+        # cannot be read off the rule's list of subject modules
+        subject_expected = self._rule._modules_to_check_to_be_specified_next  # type: ignore
+
+        if (
+            subject_expected
+            and not self._subject_specified
+            and isinstance(layers, list)
+        ):
             raise ImproperlyConfigured(
                 "Layer rule subjects cannot be specified in batch."
             )
 
-        if self._rule.rule_subjects and self._rule._modules_to_check_to_be_specified_next:  # type: ignore
+        if subject_expected and self._subject_specified:
             raise ImproperlyConfigured(
                 "Only one layer rule subject can be specified."
             )
 
         layers = self._listify(layers)
         modules = self._get_all_modules_in_layers(layers)
+
+        if subject_expected:
+            self._subject_specified = True
 
         self._rule = self._rule._add_modules(modules)
         return self
